@@ -10,7 +10,7 @@
    infer_state_of on every run (L1), and [wf_prog (ainfer p) p] is evaluated on every real
    output of accfg-trace-states (L1). *)
 From Snax Require Import Base.Prelude Model.AccIR Model.AccSem Model.AccInfer Model.AccInferTy Model.AccDedup Model.AccWeave
-  Proofs.AccSemProofs Proofs.AccInferProofs Proofs.AccWeaveProofs Proofs.AccHeadProofs.
+  Proofs.AccSemProofs Proofs.AccInferProofs Proofs.AccWeaveProofs Proofs.AccHeadProofs Proofs.AccCertProofs.
 
 (* For every certified table and program, every oracle (initial registers, what opaque calls write
    and return) and all arguments — hence all trip counts, including zero, and all branch outcomes —
@@ -31,6 +31,17 @@ Theorem C07_model_inference_sound_partial :
 Proof. intros p H orc args. exact (wf_sound (tfun (ainfer p)) orc p args H). Qed.
 Print Assumptions C07_model_inference_sound_partial.
 
+Definition c07_two_cfg_early : prog :=
+  mkProg [0%nat; 1%nat; 2%nat; 3%nat; 4%nat; 5%nat]
+   [SSetup 0%nat 6%nat None [(0%nat, 0%nat); (1%nat, 1%nat)]; SLaunch 0%nat 7%nat 6%nat []; SAwait 0%nat 7%nat;
+    SFor 8%nat 3%nat 4%nat 5%nat [(15%nat, 6%nat, (TState 0%nat))] [18%nat]
+      [SSetup 0%nat 16%nat (Some 15%nat) [(0%nat, 0%nat); (1%nat, 1%nat)]; SLaunch 0%nat 10%nat 16%nat []; SAwait 0%nat 10%nat;
+       SSetup 0%nat 17%nat (Some 16%nat) [(0%nat, 2%nat); (1%nat, 1%nat)]; SLaunch 0%nat 12%nat 17%nat []; SAwait 0%nat 12%nat]
+      [17%nat];
+    SSetup 0%nat 19%nat (Some 18%nat) [(0%nat, 2%nat); (1%nat, 1%nat)]; SLaunch 0%nat 14%nat 19%nat []; SAwait 0%nat 14%nat].
+
+Definition c07_two_cfg := c07_two_cfg_early.
+
 (* ---- the correctness argument of the F1 repair, about the model of infer_state_of -----------------
    For a loop whose state values are typed per accelerator ([sty_stmt], decidable, evaluated on every
    real accfg-trace-states output by L1) and any table T of proper dictionaries in front of it: the
@@ -39,12 +50,8 @@ Print Assumptions C07_model_inference_sound_partial.
    loops and conditionals, using that inference is field-local per accelerator — and the other three
    loop clauses of the certificate hold by construction.
 
-   Full statement NOT proved:  ainfer_certified_all : wt p -> ssa p -> ainfer_certified p = true.
-   Missing: (1) frame — lookups in the FINAL table return the entry created at the definition (needs
-   uniqueness of state-value definitions), (2) the scoping clause facts_avoid (facts only mention values
-   defined earlier; needs SSA dominance), (3) the link clauses from the weave.  The clauses below are the
-   semantic content; (1)-(3) are bookkeeping, and [ainfer_certified] is evaluated on every generated
-   program by L1. *)
+   With the frame / scoping / link bookkeeping (Proofs/AccCertProofs.v) this gives the full
+   [C07_model_table_certified] and [C07_model_inference_sound] at the end of this group. *)
 Theorem C07_loop_head_inductive :
   forall ty_of iv lb ub sp its rs body ys T,
   sty_stmt ty_of (SFor iv lb ub sp its rs body ys) = true -> tbl_ok T ->
@@ -66,6 +73,26 @@ Theorem C07_inference_field_local :
   forall T1 T2, tbl_ok T1 -> tbl_ok T2 -> rel ty_of a f T1 T2 -> rel ty_of a f (ainfer_block b T1) (ainfer_block b T2).
 Proof. exact loc_block. Qed.
 Print Assumptions C07_inference_field_local.
+
+(* The model's own table ALWAYS passes the certificate: for every program that is well-threaded
+   ([wt_prog]: the link clauses alone), typed per accelerator, defines every state value once and
+   respects SSA scoping — [cert_side], decidable and independent of any table (evaluated on every real
+   accfg-trace-states output by L1). *)
+Theorem C07_model_table_certified :
+  forall p, cert_side p = true -> ainfer_certified p = true.
+Proof. exact ainfer_certified_all. Qed.
+Print Assumptions C07_model_table_certified.
+
+(* hence: nothing the model of infer_state_of (as repaired) infers is ever contradicted, on any
+   execution of any such program — no per-program evaluation of the certificate involved *)
+Theorem C07_model_inference_sound :
+  forall p, cert_side p = true ->
+  forall (orc : oracle) (args : list Z), chk_prog (tfun (ainfer p)) orc p args = [].
+Proof. intros p H orc args. exact (wf_sound (tfun (ainfer p)) orc p args (ainfer_certified_all p H)). Qed.
+Print Assumptions C07_model_inference_sound.
+
+Example C07_cert_side_nonvacuous : cert_side c07_two_cfg_early = true.
+Proof. reflexivity. Qed.
 
 (* ---- the model of _weave_states_in_region (compared with the real pass by L1 on every run) ------
    What is still assumed after something that may reconfigure the accelerators behind the
@@ -99,15 +126,6 @@ Proof. exact weave_block_ending_in_call_forgets. Qed.
 Print Assumptions C07_weave_branch_ending_in_call_forgets.
 
 (* the woven two-configuration loop of notes/probe_c01_two_config_loop.mlir (F1) *)
-Definition c07_two_cfg : prog :=
-  mkProg [0%nat; 1%nat; 2%nat; 3%nat; 4%nat; 5%nat]
-   [SSetup 0%nat 6%nat None [(0%nat, 0%nat); (1%nat, 1%nat)]; SLaunch 0%nat 7%nat 6%nat []; SAwait 0%nat 7%nat;
-    SFor 8%nat 3%nat 4%nat 5%nat [(15%nat, 6%nat, (TState 0%nat))] [18%nat]
-      [SSetup 0%nat 16%nat (Some 15%nat) [(0%nat, 0%nat); (1%nat, 1%nat)]; SLaunch 0%nat 10%nat 16%nat []; SAwait 0%nat 10%nat;
-       SSetup 0%nat 17%nat (Some 16%nat) [(0%nat, 2%nat); (1%nat, 1%nat)]; SLaunch 0%nat 12%nat 17%nat []; SAwait 0%nat 12%nat]
-      [17%nat];
-    SSetup 0%nat 19%nat (Some 18%nat) [(0%nat, 2%nat); (1%nat, 1%nat)]; SLaunch 0%nat 14%nat 19%nat []; SAwait 0%nat 14%nat].
-
 (* non-vacuity: the model's table for it is certified, and assumes B = %y at the loop head *)
 Example C07_nonvacuous :
   wf_prog (tfun (ainfer c07_two_cfg)) c07_two_cfg = true /\ tlook (ainfer c07_two_cfg) 15%nat = [(1%nat, 1%nat)]
